@@ -80,6 +80,7 @@ struct SessionsModel : Monitor {
 			if (it == slot.end() || !it->second.issued) return;
 			SlotModel &s = it->second;
 			step.from_bound = same_ip(d.src, s.bound);
+			step.t_hi_before = s.t_hi;
 			if (cmd == 1) {
 				uint8_t h[16]; ref_login(w->password, s.seed + 1, h);
 				if (s.logged_in && d.data.size() >= 20 && !memcmp(&d.data[4], h, 16)) { step.valid_rawlogin = true; step.authorised = true; last_rawlogin = d.data; }
@@ -196,6 +197,11 @@ struct SessionsModel : Monitor {
 		}
 		if (is_rawf(d.data)) {
 			int cmd = d.data[3] >> 4, uid = d.data[3] & 15;
+			if (cmd == 1 && step.n == 1 && step.valid_rawlogin && step.t_hi_before && w->S.now - step.t_hi_before > 62ull * 1000000) {
+				// C04: a session silent for more than 60 s is refused - also when the request is a raw login with the right hash
+				char b[200]; snprintf(b, sizeof b, "session %d was silent for %.1f s and a raw login for it was still answered", uid, (w->S.now - step.t_hi_before) / 1e6);
+				w->S.violate("C04", "expired.accepted.rawlogin", b);
+			}
 			if (cmd == 1) { if (!(step.n == 1 && step.valid_rawlogin)) require_auth("raw_login_reply"); else { SlotModel &sm = slot[uid]; sm.raw_ok = true; if (!same_ip(sm.bound, step.d.src)) sm.bound_hist.push_back(sm.bound); sm.bound = step.d.src; sm.t_lo = sm.t_hi = w->S.now; w->probes["c03.rawlogin_ok"]++; } }
 			else if (cmd == 3 && step.n == 1 && step.raw && step.authorised) { slot[uid].t_lo = w->S.now; }
 			else if (cmd == 3) { if (step.n == 1 && step.raw) require_auth("raw_ping_reply"); }
@@ -756,6 +762,20 @@ J gen_sessions(uint64_t seed, const J &ov)
 			t2.set("len", (int)r.range(40, 400)); t2.set("body", "rnd"); t2.set("src", "ext"); t2.set("dst", m.gets("name"));
 			ops.push(t2);
 		}
+	}
+	// a raw login repeated after its session has expired (a late duplicate, or a replay of the captured datagram): the hash is still
+	// the right one for the slot's challenge, but the session is dead
+	if (!ffrag && !fpool) for (auto &m : models.a) {
+		if (!m.has("auto_until_s") || m.gets("name")[0] != 'm' || m.has("use_v6") || m.getb("raw_talker") || !r.chance(0.4)) continue;
+		double stop = m.getd("auto_until_s");
+		if (stop + 75 > T || stop < 6) continue;
+		{ J op = J::obj(); op.set("ref", "abs"); op.set("t", (long long)((stop - 1.5) * 1e6)); op.set("op", "mc"); op.set("who", m.gets("name")); op.set("act", "rawlogin"); op.set("mode", "good"); ops.push(op); }
+		for (int j = 0; j < 2; j++) {
+			J op = J::obj(); op.set("ref", "abs"); op.set("t", (long long)((stop + 62.5 + r.uniform() * 8) * 1e6)); op.set("op", "mc"); op.set("who", m.gets("name")); op.set("act", "rawlogin"); op.set("mode", "good");
+			if (j) op.set("spoof_ip", "10.9.2." + std::to_string(r.range(1, 3)));
+			ops.push(op);
+		}
+		break;
 	}
 	// someone who knows the password but skips the DNS login: version handshake, then straight to the raw login
 	if (!ffrag && !fpool && r.chance(0.3)) {
